@@ -58,6 +58,16 @@ def replay_case(case, tag, rng, tier):
             out["skipped"][skip] = out["skipped"].get(skip, 0) + 1
 
     try:
+        G.set_eps()
+        pre = {}
+        for n_, o_ in enumerate(case["objs"]):
+            if rng.random() < 0.5:
+                continue
+            x_, e_ = call(build, o_, pose, "float")
+            if e_ is None:
+                call(hash, x_)                      # hashed / compared under the default tolerance
+                call(lambda: x_ == x_)
+                pre[n_ + 1] = x_
         apply_calls(calls)
         eps = cfg["mant"] * 10.0 ** (-cfg["exp"])
         ge, gs = G.get_eps(), G.get_sig_figures()
@@ -90,6 +100,9 @@ def replay_case(case, tag, rng, tier):
                     bad("C19.construct", "an object perturbed by %s (%.1e) could not be constructed: %s" % (c["delta"], delta, eb["cls"]),
                         dict(sig, what="construct"), [o])
                 continue
+            if rng.random() < 0.5 and c["obj"] in pre:
+                a = pre[c["obj"]]                   # the object that already existed before the setters were called
+                sig["pre_built"] = True
             val, exc = call(lambda: a == b)
             out["calls"] += 1
             if exc is not None or bool(val) is not c["same"]:
